@@ -398,7 +398,7 @@ def run(ctx):
         ctx.notes.append("Lean driver not available: only the direct oracle ran")
 
 
-FIXED_SDL = ("type Query { a(l: [Int], x: String, o: In, i: Int): Int, b: Ob, u: U, n: Node, ns: [Node!], s: String! }\n"
+FIXED_SDL = ("type Query { a(l: [Int], x: String, o: In, i: Int): Int, b: Ob, u: U, n: Node, ns: [Node!], s: String!, lim(limit: Int = 2, o: In = {a: 1}): Int }\n"
              "type Ob implements Node { id: ID, t(x: Int): String, a(l: [Int]): Int, b: Ob, only: Other }\n"
              "type Other implements Node { id: ID, t(x: Int): String, c: String, b: Ob, d: Int }\n"
              "interface Node { id: ID, t(x: Int): String, b: Ob }\ninput In { a: Int }\nunion U = Ob | Other\n")
@@ -431,6 +431,16 @@ FIXED = [
     ("directive-null-variable-inline", "query($v: Boolean = true){ n { ... on Node @skip(if:$v) { id } } a }", {"v": None}),
     ("directive-null-variable-default-used", "query($v: Boolean = true){ b @skip(if:$v) { id } a }", {}),
     ("list-literal-at-scalar-argument", "{ a(i: [1]) }", {}),
+    ("null-literal-vs-default", "{ lim lim(limit: null) }", {}),
+    ("null-literal-vs-default-reversed", "{ lim(limit: null) lim }", {}),
+    ("null-literal-vs-default-object", "{ lim(o: null) lim }", {}),
+    ("null-literal-vs-default-nested-fragment", "{ lim ...N } fragment N on Query { lim(limit: null) }", {}),
+    ("null-literal-both", "{ lim(limit: null) lim(limit: null) }", {}),
+    ("fragment-cycle-beside-acyclic", "{ ...Loop ...Alpha } fragment Alpha on Query { s } fragment Loop on Query { ...Back } fragment Back on Query { ...Loop }", {}),
+    ("fragment-cycle-beside-acyclic-first", "{ ...Alpha ...Loop } fragment Loop on Query { ...Back s } fragment Back on Query { ...Loop ...Alpha } fragment Alpha on Query { s }", {}),
+    ("fragment-cycle-beside-acyclic-last", "{ ...Loop ...Zed } fragment Zed on Query { s } fragment Loop on Query { ...Back } fragment Back on Query { ...Loop }", {}),
+    ("fragment-self-cycle-beside-acyclic", "{ ...Self ...Alpha } fragment Alpha on Query { s } fragment Self on Query { s ...Self }", {}),
+    ("fragment-cycle-three-beside-acyclic", "{ ...Alpha ...L1 } fragment L1 on Query { ...L2 } fragment L2 on Query { ...L3 ...Alpha } fragment L3 on Query { ...L1 } fragment Alpha on Query { a }", {}),
     ("seen-fragments-quirk", "{ ... on Query { ...F } ...F n { ... { ...G } ...G } } fragment F on Query { s a } fragment G on Node { id }", {}),
     ("meta-on-non-root", "{ b { __schema { types { name } } } }", {}),
     ("same-key-object-then-abstract", "{ n { ... on Ob { k: a } ... on Node { k: id } } }", {}),
